@@ -299,6 +299,15 @@ func agentStatus(t *testing.T, tp *simrt.Tape, cfg simrt.Config, sc *agentScenar
 			}
 		}
 	}
+	if chance(tp, 1, 6) {
+		// a large status document (the live status carries every step with its script): well over 64 KiB
+		i := tp.Draw(simrt.SGen, len(sc.Dag.Steps))
+		sc.Dag.Steps[i].Script = "#!/bin/sh\n# " + strings.Repeat("long inline script ", 4000) + "\nrun " + sc.Dag.Steps[i].Name + "\n"
+		if sc.Second != nil {
+			sc.Second.Steps[i].Script = sc.Dag.Steps[i].Script
+		}
+		bump(out, "status_document_over_64k")
+	}
 	nObs := 4 + tp.Draw(simrt.SGen, 10)
 	for i := 0; i < nObs; i++ {
 		sc.ObsGapMs = append(sc.ObsGapMs, pick(tp, 0, 1, 5, 30, 90, 100, 101, 250, 800))
